@@ -281,6 +281,16 @@ def run(root, pid, tier, seed, replay):
 
     violations = []   # dicts with 'key', 'text', 'replay'
     known, fixed = load_known(root)
+    # replay: properties whose harness command reads a corpus re-run the single recorded input;
+    # the others re-run the recorded stream (same seed and tier: every random choice derives from
+    # the one PRNG state) and report only the recorded finding
+    replay_key = None
+    if replay:
+        rep = json.load(open(replay))
+        if pid not in ('C01', 'C02', 'C19', 'C06') and rep.get('stream'):
+            tier, seed = rep['stream']['tier'], rep['stream']['seed']
+            replay_key = rep.get('key')
+            replay = None
     ctx = {'root': root, 'workdir': workdir, 'tier': tier, 'seed': seed, 'pid': pid, 'replay': replay,
            'evaluations': 0, 'nontrivial': 0, 'distribution': {}, 'samples': [], 'notes': []}
 
@@ -297,6 +307,8 @@ def run(root, pid, tier, seed, replay):
         print('ERROR: check machinery failed:', e)
         return 2
     violations += found
+    if replay_key is not None:
+        violations = [v for v in violations if v['key'] == replay_key or str(v['key']).startswith('theorem:')]
 
     # a broken theorem with a concrete failing input found by the stream: keep both;
     # known-findings filter
@@ -322,10 +334,10 @@ def run(root, pid, tier, seed, replay):
     n_rep = 0
     for v in out_viol:
         n_rep += 1
-        fn = os.path.join(repdir, '%s-%d-%d.json' % (tier, seed, n_rep))
+        fn = os.path.join(repdir, '%s%s-%d-%d.json' % ('replayed-' if (replay or replay_key is not None) else '', tier, seed, n_rep))
         with open(fn, 'w') as f:
             json.dump({'property': pid, 'key': v['key'], 'kind': v.get('kind'), 'text': v['text'],
-                       'detail': v.get('detail'), 'replay_cmd': './check %s --replay %s' % (pid, fn)}, f, indent=1, default=str)
+                       'detail': v.get('detail'), 'stream': {'tier': tier, 'seed': seed}, 'replay_cmd': './check %s --replay %s' % (pid, fn)}, f, indent=1, default=str)
         suffix = ' no-failing-input-found' if v.get('no_input') else ''
         print('VIOLATION property=%s replay=%s%s' % (pid, fn, suffix))
         print('  ' + v['text'][:300])
@@ -353,8 +365,9 @@ def run(root, pid, tier, seed, replay):
     }
     if ev['coverage']['obligations'] == 0:
         ev['coverage'].pop('obligations'); ev['coverage'].pop('discharged')
-    with open(os.path.join(root, 'evidence', pid + '.json'), 'w') as f:
-        json.dump(ev, f, indent=1, default=str)
+    if not (replay or replay_key is not None):   # a replay does not rewrite the evidence of the full run
+        with open(os.path.join(root, 'evidence', pid + '.json'), 'w') as f:
+            json.dump(ev, f, indent=1, default=str)
     print('%s %s seed=%d: %d evaluations, %d distinct non-trivial, %d/%d theorems, %d violation(s), %d known, %.1fs'
           % (pid, tier, seed, ctx['evaluations'], ctx['nontrivial'], len(pr['discharged']), len(pr['obligations']),
              len(out_viol), len(seenk), time.time() - t0))
